@@ -196,6 +196,26 @@ func wholePlanCoq(r *Rig, op gen.GenOp) (string, bool) {
 	return fmt.Sprintf("CPlan (mkPlan %s\n    %s\n    [%s] %s\n    %s\n    %s)", coqprint.TMap(r.TM), coqprint.PSchema(r.Merged), strings.Join(us, "; "), coqprint.CoqStr(parent), input, obs), true
 }
 
+// sanitizeCoq: the client's selection set as parsed (printed BEFORE the sanitizer edits it in place), what the real
+// sanitizer makes of it, and the helper fields it registers. Operations that spread one fragment definition more than
+// once are left out (the sanitizer edits the shared definition: listed finding C01-fragment-spread-twice).
+func sanitizeCoq(r *Rig, op gen.GenOp) (string, bool) {
+	o := selectedOp(r.Merged, op)
+	if o == nil {
+		return "", false
+	}
+	spreads := map[string]int{}
+	input := coqprint.SSels(o.SelectionSet, spreads)
+	for _, n := range spreads {
+		if n > 1 {
+			return "", false
+		}
+	}
+	ctx := &planner.PlanningContext{Operation: o, Request: &requests.Request{Query: op.Query, Variables: op.Variables}, Schema: r.Merged, TypeURLMap: r.TM}
+	res, sf := planner.VerifSanitize(ctx, o.SelectionSet)
+	return fmt.Sprintf("CSan (mkSan %s\n    %s\n    %s\n    %s\n    %s)", coqprint.TMap(r.TM), coqprint.SSchema(r.Merged), input, coqprint.SSels(res, nil), coqprint.Scrub(sf)), true
+}
+
 func driveC02(seed int64, tier, out, replay string) {
 	rng := hx.NewRand(seed)
 	obs := hx.NewObs("C02", seed, tier)
@@ -305,6 +325,11 @@ func driveC02(seed int64, tier, out, replay string) {
 			obs.CaseInputs = append(obs.CaseInputs, c)
 			obs.Count("whole_plans_compared_with_the_model")
 		}
+		if sl, ok := sanitizeCoq(r, op); ok {
+			coq = append(coq, sl)
+			obs.CaseInputs = append(obs.CaseInputs, c)
+			obs.Count("sanitizer_runs_compared_with_the_model")
+		}
 		obs.Count(fmt.Sprintf("steps_%d", len(lines)))
 		if len(op.Variables) > 0 {
 			obs.Count("with_client_variables")
@@ -322,9 +347,39 @@ func driveC02(seed int64, tier, out, replay string) {
 		}
 		idx++
 	}
+	// shapes the generator does not write, on the hand-written federation: model and code only (some of them are
+	// listed findings end to end) — fragments on interfaces, on the enclosing type, nested, next to helpers
+	if herr == nil && replay == "" {
+		for _, q := range []string{
+			`{ beings { ... on Node { id } } }`,
+			`{ beings { __typename ... on Node { id } ... on Human { name } } }`,
+			`{ me { ... on Node { id } name } }`,
+			`{ me { ... on Human { name phone } ... on Human { friend { phone } } } }`,
+			`{ me { id ... on Human { id name } } }`,
+			`{ node(id: "h1") { ... on Node { id } ... on Human { name } } }`,
+			`{ humans { pets { ... on Node { id } kind weight } } }`,
+			`{ beings { ... on Being { ... on Pet { weight } } } }`,
+			`{ beings { ... on Human { friend { ... on Human { phone } } } ... on Pet { owner { name } } } }`,
+			`{ me { __typename friend { __typename id phone } } }`,
+			`{ a: me { name } a: me { phone } }`,
+			`{ me { pets { id } pets { weight } } }`,
+		} {
+			op := gen.GenOp{Query: q, Kind: "query"}
+			hc := c02Case{Hand: true, Op: &op}
+			if pl, ok := wholePlanCoq(hand, op); ok {
+				coq = append(coq, pl)
+				obs.CaseInputs = append(obs.CaseInputs, hc)
+			}
+			if sl, ok := sanitizeCoq(hand, op); ok {
+				coq = append(coq, sl)
+				obs.CaseInputs = append(obs.CaseInputs, hc)
+				obs.Count("hand_written_shapes_through_the_sanitizer_and_planner_models")
+			}
+		}
+	}
 	obs.Evaluations = idx
 	obs.DistinctNontrivial = len(distinct)
 	obs.Rule = "generated worlds x generated valid operations (arguments with literals and variables, nested fragments, aliases); every sub-request is parsed, validated against the RECEIVING service's own schema and has its variables coerced by that service (evaluating fakes); every plan step's selection set, VariablesList and forwarded variables are compared with the model; coverage and helper registration through the single-server comparison; non-trivial = plan has at least 2 steps"
-	hx.WriteCases(out, "From Pebbles Require Import Base.Json Plan.Vars Plan.Header Merge.Model Plan.Steps Corr.C02.\nFrom Coq Require Import List String. Import ListNotations.\nOpen Scope string_scope.\n", "c2", coq, "mismatches")
+	hx.WriteCases(out, "From Pebbles Require Import Base.Json Plan.Vars Plan.Header Merge.Model Plan.Steps Plan.Sanitize Corr.C02.\nFrom Coq Require Import List String. Import ListNotations.\nOpen Scope string_scope.\n", "c2", coq, "mismatches")
 	obs.Write(out)
 }
